@@ -46,6 +46,11 @@ TRUSTED_EXTRA = [
     "LAPACK / BLAS, trsbox (C12), radius management (C18), exits (C10) are exercised, not verified, here",
 ]
 
+LEVEL = "proof"
+EXPLANATION = ("PARTIAL. Proved (Lean): the mechanisms — affine residuals are fitted exactly (interpolation and regression), the Gauss-Newton "
+               "model is the exact expansion, actual = predicted reduction (ratio 1). NOT proved: the headline f - f* <= 1e-6(1+f*), feasibility "
+               "and the success flag; that part is a sampled end-to-end search against lsq_linear (no proof claimed).")
+
 TOL_J = 64.0
 TOL_R = 64.0
 SUITE = 501
@@ -189,7 +194,7 @@ def check_instance(inst, soln):
 def correspondence(ctx):
     dfols = core.import_dfols()
     from dfols.controller import Controller
-    nrun = ctx.scale(40, 400)
+    nrun = ctx.scale(60, 400)
     obs = []
     cur = {}
     orig = Controller.calculate_ratio
@@ -315,7 +320,7 @@ def correspondence(ctx):
 # ----------------------------------------------------------------------------------------------
 def search(ctx):
     dfols = core.import_dfols()
-    ninst = ctx.scale(150, 3000) * getattr(ctx, "boost", 1)
+    ninst = ctx.scale(200, 3000) * getattr(ctx, "boost", 1)
     counts, gaps, nfs = {}, [], []
     for i in range(ninst):
         rng = np.random.default_rng([ctx.seed, SUITE, i])
